@@ -11,6 +11,20 @@ from .paths import Enumerator
 VERIF = os.path.dirname(os.path.dirname(os.path.abspath(__file__)))
 
 
+def _plain(d):
+    """Materialise lazy path descriptions (and lists containing them)."""
+    from .paths import LazyLines
+    if isinstance(d, LazyLines):
+        return list(d)
+    if isinstance(d, (list, tuple)):
+        out = []
+        for x in d:
+            x = _plain(x)
+            out.append(x)
+        return out
+    return d
+
+
 class Obligation:
     __slots__ = ('rule', 'what', 'status', 'site', 'key', 'detail', 'behaviour')
 
@@ -106,10 +120,11 @@ class Analysis:
         self.obligations.append(Obligation(rule, what, 'discharged', site, None, detail))
 
     def violated(self, rule, what, site=None, key=None, detail=None, behaviour=None):
+        detail = _plain(detail)
         self.obligations.append(Obligation(rule, what, 'violated', site, key, detail, behaviour))
 
     def undecided(self, rule, what, site=None, detail=None):
-        self.obligations.append(Obligation(rule, what, 'undecided', site, None, detail))
+        self.obligations.append(Obligation(rule, what, 'undecided', site, None, _plain(detail)))
 
     def check(self, cond, rule, what, site=None, key=None, detail=None, behaviour=None):
         if cond:
